@@ -1,6 +1,6 @@
 (* C07 -- property theorems only.  Proofs live in C07/Proofs*.v. *)
 From Coq Require Import NArith List Bool Arith.
-From DV Require Import Base.Outcome Base.Bytes C07.Gen C07.Model C07.Proofs C07.Proofs2 C07.Proofs3 C07.Proofs4 C07.Proofs5 C07.Proofs6 C07.Proofs7.
+From DV Require Import Base.Outcome Base.Bytes C07.Gen C07.Model C07.Proofs C07.Proofs2 C07.Proofs3 C07.Proofs4 C07.Proofs5 C07.Proofs6 C07.Proofs7 C07.Proofs8.
 Import ListNotations.
 Local Open Scope N_scope.
 
@@ -333,11 +333,15 @@ Theorem C07_scan_charstr_entry_protocol : forall s, PInv s -> good (fun rs => PI
 Proof. exact scan_charstr_entry_good. Qed.
 Print Assumptions C07_scan_charstr_entry_protocol.
 
-Theorem C07_convert_entry_protocol : forall (St : Type) process tail,
-  (forall (h : St) sym, no_panic (process h sym)) -> (forall h, no_panic (tail h)) ->
-  forall init s, PInv s -> good (fun rs => PInv (snd rs)) (convert_entry St process tail init s).
+Theorem C07_convert_entry_protocol : forall (St : Type) process tail (SI : St -> Prop),
+  (forall h sym, SI h -> good (fun x => SI (fst x)) (process h sym)) -> (forall h, no_panic (tail h)) ->
+  forall init s, SI init -> PInv s -> good (fun rs => PInv (snd rs)) (convert_entry St process tail init s).
 Proof. exact convert_entry_good. Qed.
 Print Assumptions C07_convert_entry_protocol.
+
+Theorem C07_base64_converter_total : forall c sym, b64_si c -> good (fun x => b64_si (fst x)) (b64_process c sym).
+Proof. exact b64_process_total. Qed.
+Print Assumptions C07_base64_converter_total.
 
 Theorem C07_skip_markers_protocol : forall s, PInv s ->
   good (fun bs => PInv (snd bs) /\ (fst bs = false -> snd bs = s)) (skip_at_token s) /\
@@ -345,9 +349,8 @@ Theorem C07_skip_markers_protocol : forall s, PInv s ->
 Proof. intros s H. split; [exact (skip_at_token_good s H) | exact (skip_unknown_marker_good s H)]. Qed.
 Print Assumptions C07_skip_markers_protocol.
 
-Theorem C07_method_sequences_protocol : forall allow,
-  (allow = true -> forall c sym, no_panic (b64_process c sym)) ->
-  forall origin ms s, Forall (meth_ok allow) ms -> PInv s -> good PInv (run_type_scan origin ms s).
+Theorem C07_method_sequences_protocol :
+  forall origin ms s, Forall meth_ok ms -> PInv s -> good PInv (run_type_scan origin ms s).
 Proof. exact run_type_scan_good. Qed.
 Print Assumptions C07_method_sequences_protocol.
 
@@ -367,7 +370,6 @@ Print Assumptions C07_schema_matches_source.
 
 Theorem C07_type_scan_total : forall rt codes ms origin s,
   In (rt, codes) type_scans -> decode_meths codes = Some ms ->
-  (has_b64 codes = true -> forall c sym, no_panic (b64_process c sym)) ->
   PInv s -> good PInv (run_type_scan origin ms s).
 Proof. exact type_scan_total. Qed.
 Print Assumptions C07_type_scan_total.
@@ -405,3 +407,25 @@ Theorem C07_empty_label_refuted : name_rejects_empty_label = false ->
   read_file w_dots = ([ERecord [1; 97; 0; 1; 98; 0] 1 1 1 [1; 2; 3; 4]], EEof).
 Proof. exact empty_label_refuted. Qed.
 Print Assumptions C07_empty_label_refuted.
+
+Theorem C07_scan_entry_protocol : forall zs s, string_drops_quote = true ->
+  PInv s -> is_token (scat s) = false -> good entry_good (scan_entry zs s).
+Proof. exact scan_entry_good. Qed.
+Print Assumptions C07_scan_entry_protocol.
+
+Theorem C07_reader_no_panic : string_drops_quote = true ->
+  forall file, match snd (read_file file) with EPanic _ => False | _ => True end.
+Proof. exact reader_no_panic. Qed.
+Print Assumptions C07_reader_no_panic.
+
+Theorem C07_inner_fuel_suffices : string_drops_quote = true ->
+  forall zs s, PInv s -> is_token (scat s) = false -> scan_entry zs s <> OutOfFuel.
+Proof. exact inner_fuel_suffices. Qed.
+Print Assumptions C07_inner_fuel_suffices.
+
+Theorem C07_reader_no_panic_now :
+  if string_drops_quote
+  then forall file, match snd (read_file file) with EPanic _ => False | _ => True end
+  else True.
+Proof. exact reader_no_panic_now. Qed.
+Print Assumptions C07_reader_no_panic_now.
